@@ -218,7 +218,7 @@ class Builder:
             if not self.leave_args:
                 scribble(v)
             return self._note(s, t)
-        if k in ("mult", "pmult"):
+        if k in ("mult", "nmult"):
             from . import fwdtype  # noqa: F401  (registers the types)
             return self._note(getattr(schema, "mc_" + k)(t[1]), t)
         if k == "raw":
@@ -415,6 +415,6 @@ def show(t):
         return f"UserAlias:{t[1]}"
     if k == "fwd":
         return f"Fwd({show(t[1])})"
-    if k in ("mult", "pmult"):
-        return f"{'Positive' if k == 'pmult' else ''}MultipleOf({t[1]})"
+    if k in ("mult", "nmult"):
+        return f"{'Non' if k == 'nmult' else ''}MultipleOf({t[1]})"
     return repr(t)
